@@ -80,3 +80,8 @@ claimed["C19"] = dict(engine="engine-S", category="fault_enumeration",
   text="for every entry point with an io.Writer, the failure of the k-th Write for every k up to the number of writes of the fault-free run, in both fault modes, under every schedule with <=1 (thorough <=2) preemptions: the call must return a non-nil error (never nil, hang or panic); and the real binary with RLIMIT_FSIZE = every n below the output size, for every command including sam toPairAlign to stdout and to a directory, must exit non-zero",
   note="trusted: the scheduler shim; fault model = Write returns (0, err); EFBIG delivery by the kernel at the write that crosses the limit",
   design_ref="DESIGN.md 2.4, 3 (C19)")
+claimed["C18"] = dict(engine="engine-S", category="model_checking",
+  technique="stateless model checking (all interleavings, happens-before pruned) of every command's error path on enumerated corrupted inputs, plus exit status of the real binary",
+  text="~200 corrupted inputs (each listed corruption at the first/middle/last record of each input file of each command) are each explored under ALL interleavings of the reader/worker/writer/error-channel pipeline with 2 (thorough also 3) workers: every execution must end in a returned error (or a panic, i.e. exit 2), never in returned(nil) or a deadlock (an exact outcome of the scheduler, not a time-out); every item and the command-line-only ones (unknown annotation suffix, window 0, missing files) then go through the real binary, whose exit status must be non-zero within 30 s",
+  note="trusted: scheduler shim; panics count as refusal here (C16 judges panics on FASTA input); valid-but-empty inputs (SAM header without alignments, target CSV with header only) are not corruptions",
+  design_ref="DESIGN.md 3 (C18)")
